@@ -877,6 +877,7 @@ def run(ctx):
         "function returns a solution with a possibly stale route, (I1) insert-then-accept pairing in the evaluator, (K9) a slot that a "
         "refresh sets on some paths only is removed on the others — must-write over the accessor wrappers, the compatibility tag's presence law evaluated over "
         "new x current in {None,Some}^2 — or its guard is constant per route (reasoned table).")
+    ctx.explanation += ' Every SolutionContext built over another set of routes starts from an empty SolutionState (K10); every bypass of estimate_arrival in the backward pass reads the carried triple or the activity (R2).'
     ctx.not_decided = ("that incremental updates compute the same VALUES as recomputation (e.g. the documented approximation in "
                        "HierarchicalAreasState::accept_insertion); solution-level aggregates between two insertions.")
     ctx.assumptions += [
